@@ -94,6 +94,16 @@ theorem run_tests_eq {ε} (dbg : Bool) (module : Module) (tests : List TestCase)
   unfold run_tests runLoop
   simp [h, RIter.collect]
 
+
+/-- T2 at the level of `run_tests` itself (accept ↦ pass, reject ↦ fail, end to end over
+    the generated `TestCase::run`, loop and decision), whenever `get_tests` yields `tests`. -/
+theorem run_tests_truthful {ε} (dbg : Bool) (module : Module) (tests : List TestCase)
+    (h : get_tests dbg module = .ok tests) (hlen : tests.length < 2^31) (log : List Event) :
+    ∃ r, run_tests (ε := ε) dbg module () log = (.ok r, log ++ tests.map evOf) ∧
+      (r = .Ok () ↔ ∀ t ∈ tests, t.func.info.verdict = .Accept ()) := by
+  rw [run_tests_eq dbg module tests h]
+  exact aggregate_iff dbg tests hlen log
+
 /-! ## T4 — the CLI -/
 
 def compileOk (W : World) : Bool := W.readOk && W.parseOk && W.typeOk
